@@ -247,6 +247,10 @@ func (m *wireMon) checkBlockingWriteLaw(X int, cur *msgRec) {
 	if m.x == nil {
 		return
 	}
+	if c := m.w.eps[X].conn; c != nil && (c.firstWriteErrSeq != 0 || c.nWriteAfterClose != 0) {
+		// the transport refused packets: handed to the transmission path, but not visible on the wire
+		return
+	}
 	emitted := map[*msgRec]int{}
 	for _, ti := range m.s[X].sent {
 		if ti.msg != nil {
